@@ -152,10 +152,10 @@ def work(task):
     res = Res()
     for k, alphas in enumerate(combos):
         res.n += 1
-        # engine-level oracles on every program with a leading zero pattern (where cropping does something) in quick,
-        # on every program in thorough
+        # engine-level oracles on every third program with a leading zero (where cropping does something); in thorough on
+        # every such single-loop program
         lead = any(a[0] == 0.0 for a in alphas)
-        check(D, alphas, (lead and (not quick or k % 3 == 0)), res)
+        check(D, alphas, (lead and (k % 3 == 0 or (not quick and len(D) == 1))), res)
         if lead:
             res.nt += 1
             res.sample({"crop": True, "delays": list(D), "arrays": [list(map(float, a)) for a in alphas]}, cap=1)
